@@ -83,13 +83,6 @@ func gateOK(bc, ku int) bool {
 
 func isSM2(kt int) bool { return kt == kSM2 }
 
-func flattenName(n pkix.Name) (out []pkix.AttributeTypeAndValue) {
-	for _, rdn := range n.ToRDNSequence() {
-		out = append(out, rdn...)
-	}
-	return
-}
-
 func cmpStrings(what string, got, want []string) error {
 	if len(got) != len(want) {
 		return fmt.Errorf("%s: parsed %q, template %q", what, got, want)
